@@ -88,3 +88,64 @@ def c09_run_origin_only(res):
         res.inconclusive.append("vacuity: process_origin paths with keep_prefix=%d" % n)
     res.distinct += n
     mprop.finish_engine(res, E)
+    check_rejected_builder(res)
+
+
+def check_rejected_builder(res):
+    """RejectedResourcesBuilder::finalize: every block a rejected CA queued ends up in the set of its address family
+    (nothing dropped or re-routed) - on every path each SegQueue::pop that yields an item is followed by exactly one
+    IpBlocksBuilder::push of that item's block into the builder selected by its flag, and the result's v4 / v6 fields
+    are those builders' finalize().  A different shape is decided by the native replay."""
+    import z3
+    import mir
+    from gating import must
+    E = mprop.engine(res)
+    body = E.prog.find("src/payload/validation.rs", "RejectedResourcesBuilder", "finalize")
+    res.functions.append("routinator::payload::validation::RejectedResourcesBuilder::finalize (MIR, queue loop unrolled to 2 items)")
+    rf = mir.struct_fields("RejectedResources", "src/payload/validation.rs")
+    problems = []
+    n = 0
+    for i, p in enumerate(E.explore(body, max_visits=3, nomut=[r"."])):
+        if p.kind != "return":
+            continue
+        n += 1
+        evs = [e for e in p.events if e.kind == "call"]
+        news = [e.dest.get(()) for e in evs if re.search(r"IpBlocksBuilder::new$", e.name)]
+        fins = {e.dest.get(()).id: e.args[0].get(()) for e in evs if re.search(r"IpBlocksBuilder::finalize$", e.name) and isinstance(e.dest.get(()), mir.Opq)}
+        pops = [x for x, e in enumerate(evs) if re.search(r"SegQueue(::<.*>)?::pop$", e.name)]
+        for j, x in enumerate(pops):
+            nxt = pops[j + 1] if j + 1 < len(pops) else len(evs)
+            popped = evs[x].dest.get(())
+            pushes = [e for e in evs[x + 1:nxt] if re.search(r"IpBlocksBuilder::push$", e.name)]
+            last = j + 1 == len(pops)
+            if last:
+                continue            # the pop that ends the loop yields None
+            ok = len(pushes) == 1 and isinstance(popped, mir.Opq) and isinstance(pushes[0].args[1].get(()), mir.Opq) \
+                and re.match(r"o%d(asSome)?\.0\.1$" % popped.id, pushes[0].args[1].get(()).origin or "") is not None
+            if not ok:
+                problems.append((p, "an item taken from the queue of rejected blocks is not pushed (exactly once, unchanged) into a block set"))
+        if not pops:
+            problems.append((p, "finalize does not drain the queue of rejected blocks"))
+        for fld in ("v4", "v6"):
+            leaf = p.ret.get((("f", rf.index(fld)),))
+            if not (isinstance(leaf, mir.Opq) and leaf.id in fins):
+                problems.append((p, "field %s of the result is not the finalize() of a block-set builder" % fld))
+    res.distinct += n
+    res.samples.append({"rejected_builder_paths": n})
+    if not n:
+        res.inconclusive.append("vacuity: RejectedResourcesBuilder::finalize has no returning path")
+    if problems:
+        import nativetest
+        failed, passed, out = nativetest.run_native_test("native_c08", "c08_native_builder_keeps_every_block")
+        m = re.search(r"C08-NATIVE-BUILDER (.*)", out)
+        res.evaluations += 1
+        p, what = problems[0]
+        fn = mprop.write_cex(res, "rejected_builder", p, E, what + "\n\nnative replay: " + (m.group(1) if m else out[-1500:]))
+        if failed:
+            res.violation("mir:rejected-builder-drops-blocks", "the set of rejected resources is not the union of the queued blocks (%s); reproduced natively: %s"
+                          % (what, m.group(1)[:400] if m else "test failed"), fn)
+        elif passed:
+            res.notes.append("RejectedResourcesBuilder::finalize has another shape than pop/push (%s); the native replay over all queue rotations passed" % what)
+        else:
+            res.inconclusive.append("RejectedResourcesBuilder::finalize: %s - native replay could not be built" % what)
+    mprop.finish_engine(res, E)
